@@ -2,6 +2,7 @@ import CryoCat.Drv.Proto
 import CryoCat.Model.C02_Num
 import CryoCat.Model.C02_Comments
 import CryoCat.Model.C02_Remove
+import CryoCat.Model.C02_Value
 namespace CryoCat.Drv.C02
 open Lean CryoCat CryoCat.C02
 
@@ -127,6 +128,16 @@ def handle (j : Json) : Json :=
   | some "ws" =>
     -- every code point the model takes for white space (compared with str.isspace over all of Unicode)
     Json.mkObj [("ws", Json.arr (((List.range 0x110000).filter (fun n => isWs (Char.ofNat n) && (Char.ofNat n).toNat == n)).map (fun (n : Nat) => Json.num (JsonNumber.fromNat n))).toArray)]
+  | some "round6" =>
+    -- the float cells of a written file, `[[bit pattern of the written value, token in the file], ...]`: does the token meet
+    -- `Round6Spec` (exact rational arithmetic, `float_precision` of the source)? `null` for a malformed entry
+    match getArr? j "cells" with
+    | some a => Json.mkObj [("ok", Json.arr (a.map (fun c => match c with
+        | Json.arr #[b, Json.str t] => (match b.getNat? with
+            | .ok n => Json.bool (round6Cell n t.toList)
+            | .error _ => Json.null)
+        | _ => Json.null)))]
+    | none => err "bad-args"
   | some "cells" =>
     match getArr? j "cells" >>= (fun a => a.toList.mapM parseCell) with
     | some cs => Json.mkObj [("texts", Json.arr (cs.map (fun c => str (cellText c))).toArray),
